@@ -631,6 +631,30 @@ namespace bloch::runtime {
         }
         runCycleCollector();
         rethrowDestructorError();
+        // Objects that are still alive when the run ends (held by a static field, or by each other)
+        // end with it: their @tracked fields are reported once, like those of any other object.
+        {
+            std::vector<std::shared_ptr<Object>> live;
+            {
+                std::lock_guard<std::mutex> lock(m_heapMutex);
+                for (auto& w : m_heap)
+                    if (auto obj = w.lock())
+                        live.push_back(obj);
+            }
+            for (auto& obj : live) {
+                if (!obj->cls || obj->destroyed || obj->trackedRecorded)
+                    continue;
+                for (size_t i = 0; i < obj->fields.size() && i < obj->cls->instanceFields.size();
+                     ++i) {
+                    const auto& fieldMeta = obj->cls->instanceFields[i];
+                    if (fieldMeta.isTracked && (obj->fields[i].type == Value::Type::Qubit ||
+                                                obj->fields[i].type == Value::Type::QubitArray)) {
+                        recordTrackedValue(obj->cls->name + "." + fieldMeta.name, obj->fields[i]);
+                        obj->trackedRecorded = true;
+                    }
+                }
+            }
+        }
         // Ensure warnings appear before any normal echo output
         if (m_warnOnExit)
             warnUnmeasured();
@@ -1667,8 +1691,9 @@ namespace bloch::runtime {
                 if (i >= obj->cls->instanceFields.size())
                     continue;
                 const auto& fieldMeta = obj->cls->instanceFields[i];
-                if (fieldMeta.isTracked && (obj->fields[i].type == Value::Type::Qubit ||
-                                            obj->fields[i].type == Value::Type::QubitArray)) {
+                if (!obj->trackedRecorded && fieldMeta.isTracked &&
+                    (obj->fields[i].type == Value::Type::Qubit ||
+                     obj->fields[i].type == Value::Type::QubitArray)) {
                     recordTrackedValue(obj->cls->name + "." + fieldMeta.name, obj->fields[i]);
                 }
                 if (obj->fields[i].type == Value::Type::Qubit) {
